@@ -13,7 +13,9 @@ use crate::{
 
 pub fn run(args: &Args) -> Report {
     let mut rep = Report::new("C03", "model_checking");
-    let (w, r) = l1::world(args.seed);
+    let (w, r) = l1::world_fb(args.seed, args.replay.as_ref().and_then(|rp| rp["replay"]["first_block"].as_u64()).unwrap_or(0));
+    // the wide pass runs on a chain whose genesis starts at block 3
+    let (w3, _) = l1::world_fb(args.seed, 3);
     let cfg = l1::L1Cfg {
         max_view: args.tier.pick(2, 3),
         crashes: true,
@@ -50,7 +52,7 @@ pub fn run(args: &Args) -> Report {
     let res_n = if rep.violations.is_empty() { l1::explore(&w, r, &narrow, &|_e| vec![]) } else { l1::L1Result::default() };
     let cfg = l1::L1Cfg { deadline: Instant::now() + Duration::from_secs(total * 3 / 8), ..cfg };
     // pass 2: wide alphabet, breadth-first to the depth the remaining budget allows
-    let res = if res_n.violations.is_empty() { l1::explore(&w, r, &cfg, &|_e| vec![]) } else { l1::L1Result::default() };
+    let res = if res_n.violations.is_empty() { l1::explore(&w3, r, &cfg, &|_e| vec![]) } else { l1::L1Result::default() };
     for (k, wh, rp) in res_n.violations.iter().chain(res.violations.iter()) {
         if k == "equivocation" || k == "store" {
             rep.violations.push(Violation { key: k.clone(), what: wh.clone(), replay: rp.clone() });
@@ -63,6 +65,7 @@ pub fn run(args: &Args) -> Report {
     let res = if res.states == 0 { res_n } else { res };
     rep.coverage = l1::coverage_json(&res, &cfg, "every reachable (local state, signed-log summary) pair of one real replica of K4=[2,2,1,1] (weight-1 validator) under the finite adversarial alphabet, with a crash at every durable write (applied / lost) of every accepted step and plain restarts; oracle over everything signed by all incarnations along the path");
     rep.coverage["minimal_alphabet_pass"] = narrow_cov;
+    rep.coverage["genesis_first_block"] = json!({"wide_pass": 3, "minimal_alphabet_pass": 0, "persistence_pass": 0});
     rep.coverage["persistence_pass"] = l1::coverage_json(&res_p, &pers_cfg, "persistence-focused alphabet (proposals and new-views from the leader, the timer), every crash point x {applied, lost, write error}, restarts");
     rep.coverage["persistence_pass"]["alphabet_size"] = json!(pa_len);
     rep.assumptions = vec![
